@@ -57,9 +57,9 @@ func DefaultPrices() proto4.HostPrices {
 // HostPrices.RPC*Cost (trusted) for this harness' fixed duration.
 type UnitPrices struct {
 	Free   int64 `json:"free"`   // per freed sector
-	Stor   int64 `json:"stor"`   // storage of one appended sector (growth) for Dur blocks
+	StorB  int64 `json:"storb"`  // storage of one appended sector (growth) per block of remaining duration
 	Ingr   int64 `json:"ingr"`   // ingress of an append batch with growth 1..128
-	Coll   int64 `json:"coll"`   // risked collateral of one appended sector (growth)
+	CollB  int64 `json:"collb"`  // risked collateral of one appended sector (growth) per block
 	Roots  int64 `json:"roots"`  // sector roots RPC for 1..128 roots
 	Egr4k  int64 `json:"egr4k"`  // read of up to 4 KiB
 	Wstor  int64 `json:"wstor"`  // temp storage part of a write
@@ -76,13 +76,13 @@ func mustScale(c types.Currency) int64 {
 }
 
 func ComputeUnitPrices(p proto4.HostPrices) UnitPrices {
-	a := p.RPCAppendSectorsCost(1, Dur)
+	a := p.RPCAppendSectorsCost(1, 1)
 	w := p.RPCWriteSectorCost(4096)
 	return UnitPrices{
 		Free:   mustScale(p.RPCFreeSectorsCost(1).RenterCost()),
-		Stor:   mustScale(a.Storage),
+		StorB:  mustScale(a.Storage),
 		Ingr:   mustScale(a.Ingress),
-		Coll:   mustScale(a.RiskedCollateral),
+		CollB:  mustScale(a.RiskedCollateral),
 		Roots:  mustScale(p.RPCSectorRootsCost(1).RenterCost()),
 		Egr4k:  mustScale(p.RPCReadSectorCost(4096).RenterCost()),
 		Wstor:  mustScale(w.Storage),
